@@ -3,7 +3,7 @@
 //!   `glm <family> n p <x: n*p> <y: n> <0 | 1 len w…> <0 | 1 len off…> alpha tol maxiter`
 //! Reply:
 //!   `= <ok:0|1> <coef vec> <deviance> <dispersion|P> <covariance vec|P> <std errors vec|P>
-//!      <predict(x) vec|P> <aic> <bic>`   (`P` = that accessor panicked), `! panic` when `fit` panics.
+//!      <predict(x) vec|P> <aic> <bic> <score(x,y)|P>`   (`P` = that accessor panicked), `! panic` when `fit` panics.
 use compute::predict::{ExponentialFamily, GLM};
 use cvexec::*;
 use std::panic::{catch_unwind, AssertUnwindSafe};
@@ -38,50 +38,89 @@ fn show_opt_vec(v: Option<Vec<f64>>) -> String {
     }
 }
 
+struct Prob {
+    x: Vec<f64>,
+    y: Vec<f64>,
+    w: Option<Vec<f64>>,
+    off: Option<Vec<f64>>,
+}
+
+fn problem(t: &mut Toks) -> R<Prob> {
+    let (n, p) = (t.usize()?, t.usize()?);
+    let x = t.f64s(n * p)?;
+    let y = t.f64s(n)?;
+    let w = opt_vec(t)?;
+    let off = opt_vec(t)?;
+    Ok(Prob { x, y, w, off })
+}
+
+fn fit(glm: &mut GLM, pr: &Prob, max_iter: usize) -> bool {
+    if let Some(w) = &pr.w {
+        glm.set_weights(w);
+    }
+    if let Some(o) = &pr.off {
+        glm.set_offset(o);
+    }
+    glm.fit(&pr.x, &pr.y, max_iter).is_ok()
+}
+
+fn report(glm: &GLM, okflag: bool, pr: &Prob) -> String {
+    let coef = glm.coef().unwrap().to_vec();
+    let dev = glm.deviance().unwrap();
+    let disp = match guarded(|| glm.dispersion().unwrap()) {
+        Some(d) => show_f(d),
+        None => "P".to_string(),
+    };
+    let cov = guarded(|| glm.coef_covariance_matrix().unwrap());
+    let se = guarded(|| glm.coef_standard_error().unwrap().to_vec());
+    let pred = guarded(|| glm.predict(&pr.x).unwrap().to_vec());
+    let aic = glm.aic().unwrap();
+    let bic = glm.bic().unwrap();
+    let score = match guarded(|| glm.score(&pr.x, &pr.y)) {
+        Some(d) => show_f(d),
+        None => "P".to_string(),
+    };
+    ok(format!(
+        "{} {} {} {} {} {} {} {} {} {}",
+        show_bool(okflag),
+        show_vec(&coef),
+        show_f(dev),
+        disp,
+        show_opt_vec(cov),
+        show_opt_vec(se),
+        show_opt_vec(pred),
+        show_f(aic),
+        show_f(bic),
+        score
+    ))
+}
+
 fn step(_: &mut (), t: &mut Toks) -> R<String> {
     match t.tok()? {
         "glm" => {
             let fam = family(t.tok()?)?;
-            let (n, p) = (t.usize()?, t.usize()?);
-            let x = t.f64s(n * p)?;
-            let y = t.f64s(n)?;
-            let w = opt_vec(t)?;
-            let off = opt_vec(t)?;
+            let pr = problem(t)?;
             let (alpha, tol) = (t.f64()?, t.f64()?);
             let max_iter = t.usize()?;
             t.end()?;
             let mut glm = GLM::new(fam);
             glm.set_penalty(alpha).set_tolerance(tol);
-            if let Some(w) = &w {
-                glm.set_weights(w);
-            }
-            if let Some(o) = &off {
-                glm.set_offset(o);
-            }
-            let okflag = glm.fit(&x, &y, max_iter).is_ok();
-            let coef = glm.coef().unwrap().to_vec();
-            let dev = glm.deviance().unwrap();
-            let disp = match guarded(|| glm.dispersion().unwrap()) {
-                Some(d) => show_f(d),
-                None => "P".to_string(),
-            };
-            let cov = guarded(|| glm.coef_covariance_matrix().unwrap());
-            let se = guarded(|| glm.coef_standard_error().unwrap().to_vec());
-            let pred = guarded(|| glm.predict(&x).unwrap().to_vec());
-            let aic = glm.aic().unwrap();
-            let bic = glm.bic().unwrap();
-            Ok(ok(format!(
-                "{} {} {} {} {} {} {} {} {}",
-                show_bool(okflag),
-                show_vec(&coef),
-                show_f(dev),
-                disp,
-                show_opt_vec(cov),
-                show_opt_vec(se),
-                show_opt_vec(pred),
-                show_f(aic),
-                show_f(bic)
-            )))
+            let okflag = fit(&mut glm, &pr, max_iter);
+            Ok(report(&glm, okflag, &pr))
+        }
+        // one GLM object fitted twice (stale state): reply for the second fit
+        "glm2" => {
+            let fam = family(t.tok()?)?;
+            let (alpha, tol) = (t.f64()?, t.f64()?);
+            let max_iter = t.usize()?;
+            let p1 = problem(t)?;
+            let p2 = problem(t)?;
+            t.end()?;
+            let mut glm = GLM::new(fam);
+            glm.set_penalty(alpha).set_tolerance(tol);
+            let _ = fit(&mut glm, &p1, max_iter);
+            let okflag = fit(&mut glm, &p2, max_iter);
+            Ok(report(&glm, okflag, &p2))
         }
         _ => Err(BadOp),
     }
